@@ -441,7 +441,7 @@ func runC11(c *rt.C) {
 		for _, f := range faults {
 			if (f.Op == "flip" || f.Op == "set") && msb[f.File][f.Off] {
 				huge++
-				if huge > 6 {
+				if huge > 3 {
 					exh = false
 					continue
 				}
